@@ -18,6 +18,9 @@ type verifStream struct {
 	data  []byte
 	pos   int
 	split int
+	// sizes, if set, are the chunk sizes of consecutive reads (cycled)
+	sizes []int
+	reads int
 }
 
 func (s *verifStream) Read(p []byte) (n int, err error) {
@@ -27,6 +30,12 @@ func (s *verifStream) Read(p []byte) (n int, err error) {
 	end := len(s.data)
 	if s.pos < s.split {
 		end = s.split
+	}
+	if len(s.sizes) > 0 {
+		if e := s.pos + s.sizes[s.reads%len(s.sizes)]; e < end {
+			end = e
+		}
+		s.reads++
 	}
 	n = copy(p, s.data[s.pos:end])
 	s.pos += n
@@ -91,7 +100,7 @@ func verifSameMsg(tag string, m1 *dns.Msg, e1 error, m2 *dns.Msg, e2 error) {
 // VerifC06QUIC: a DoQ message is decoded by a server whose receive buffer holds
 // arbitrary bytes of earlier traffic exactly as by a freshly started server.
 //
-//verif:harness name=H06a-quic tier=quick bounds="length-prefixed message of 12..16 bytes (header symbolic with QDCOUNT<=2, other counts 0; body bytes in {0..3} or a-z), delivered in 1 or 2 chunks; the pooled buffer holds 6 arbitrary stale bytes (same alphabet) after the message, zeros elsewhere" reach=decoded,rejected maxpaths=100000 fanout=70
+//verif:harness name=H06a-quic tier=quick bounds="length-prefixed message of 12..16 bytes (header symbolic with QDCOUNT<=2, other counts 0; body bytes in {0..3} or a-z), delivered in 1 or 2 chunks or in many reads of 5,1,5,1.. / 1,7,1,7.. bytes; the pooled buffer holds 6 arbitrary stale bytes (same alphabet) after the message, zeros elsewhere" reach=decoded,rejected maxpaths=100000 fanout=70
 //verif:assume sync.Pool hands the most recently released buffer back (LIFO), which is what makes stale bytes visible; stale bytes beyond 8 positions are zero
 func VerifC06QUIC() { verifC06QUIC(12, 16, 6) }
 
@@ -109,8 +118,14 @@ func verifC06QUIC(lo, hi, nstale int) {
 	framed[0], framed[1] = byte(n>>8), byte(n)
 	copy(framed[2:], msg)
 	split := 0
-	if verifChoice(2) == 1 {
+	var sizes []int
+	switch verifChoice(4) {
+	case 1:
 		split = 1 + verifChoice(2) // inside the length prefix or right after it
+	case 2:
+		sizes = []int{5, 1} // many small reads
+	case 3:
+		sizes = []int{1, 7}
 	}
 
 	// warm server: the pooled request buffer carries stale bytes of earlier traffic
@@ -122,12 +137,16 @@ func verifC06QUIC(lo, hi, nstale int) {
 	}
 	warm.reqPool.Put(bp)
 	ctx := context.Background()
-	mWarm, eWarm := warm.readQUICMsg(ctx, &verifStream{data: framed, split: split})
+	mWarm, eWarm := warm.readQUICMsg(ctx, &verifStream{data: framed, split: split, sizes: sizes})
 
 	fresh := verifNewQUIC()
-	mFresh, eFresh := fresh.readQUICMsg(ctx, &verifStream{data: framed, split: split})
+	mFresh, eFresh := fresh.readQUICMsg(ctx, &verifStream{data: framed, split: split, sizes: sizes})
 
 	verifSameMsg("doq", mWarm, eWarm, mFresh, eFresh)
+	// and both decode the message's own bytes, however the stream was chunked
+	ref := &dns.Msg{}
+	refErr := ref.Unpack(msg)
+	verifSameMsg("doq-own-bytes", mFresh, eFresh, ref, refErr)
 	if eFresh == nil {
 		verifReach("decoded")
 	} else {
